@@ -184,6 +184,41 @@ def guard_facts(f, n):
     return out
 
 
+def ast_guards(f, n):
+    """structural control dependence: for every enclosing if/else (and ?:) the condition with the truth value of the arm
+    that contains n; complements guard_facts (CFG dominance), which cannot attribute the else-arm of `if (a && b)` to a
+    single branch edge"""
+    out = []
+    cur = n
+    for a in f.ancestors(n):
+        ch = a.get('ch') or []
+        if a['k'] == 'IfStmt':
+            ks = [x for x in ch if x]
+            cond = ks[0]
+            if len(ks) > 1 and (cur is ks[1]):
+                out.append((cond, True))
+            elif len(ks) > 2 and (cur is ks[2]):
+                out.append((cond, False))
+        elif a['k'] == 'ConditionalOperator' and len(ch) == 3:
+            if cur is ch[1]:
+                out.append((ch[0], True))
+            elif cur is ch[2]:
+                out.append((ch[0], False))
+        cur = a
+    return out
+
+
+def all_guards(f, n):
+    """guard_facts plus ast_guards, without duplicates"""
+    out = list(guard_facts(f, n))
+    seen = {(c['i'], t) for c, t in out}
+    for c, t in ast_guards(f, n):
+        cc, neg = norm_cond(c)
+        if (cc['i'], t != neg) not in seen and (c['i'], t) not in seen:
+            out.append((c, t))
+    return out
+
+
 def _expand_fact(c, truth, out):
     """(a && b)=true gives a, b true; (a || b)=false gives a, b false; `!` is normalised"""
     out.append((c, truth))
